@@ -443,6 +443,11 @@ func (c *ServerConn) Close() error {
 			}
 		}
 
+		// The streams are set up, under their mutexes, by the
+		// goroutines that receive and send for the gbn connection. One
+		// of them may still be at it (the reader of a handshake that
+		// was given up, for instance), so take the mutexes here too.
+		c.receiveStreamMu.Lock()
 		if c.receiveStream != nil {
 			c.log.Debugf("Closing receive stream")
 			if err := c.receiveStream.CloseSend(); err != nil {
@@ -452,7 +457,9 @@ func (c *ServerConn) Close() error {
 				returnErr = err
 			}
 		}
+		c.receiveStreamMu.Unlock()
 
+		c.sendStreamMu.Lock()
 		if c.sendStream != nil {
 			c.log.Debugf("Closing send stream")
 			if err := c.sendStream.CloseSend(); err != nil {
@@ -462,6 +469,7 @@ func (c *ServerConn) Close() error {
 				returnErr = err
 			}
 		}
+		c.sendStreamMu.Unlock()
 
 		close(c.quit)
 		c.log.Debugf("Connection closed")
